@@ -81,14 +81,29 @@ def _g_dep(c, k, mu, sigma_squared, team, rank):
     )
 
 
-GAMMAS = {
+class _Gammas(dict):
+    """name -> callback; 'const:<x>' is the constant callback returning float(x)"""
+
+    def __missing__(self, key):
+        if isinstance(key, str) and key.startswith("const:"):
+            val = float(key[6:])
+
+            def g(c, k, mu, sigma_squared, team, rank, _v=val):
+                return _v
+
+            self[key] = g
+            return g
+        raise KeyError(key)
+
+
+GAMMAS = _Gammas({
     "default": None,
     "one": _g_one,
     "inv_k": _g_invk,
     "three": _g_three,
     "zero": _g_zero,
     "dep": _g_dep,
-}
+})
 
 
 # --------------------------------------------------------------------------
